@@ -208,14 +208,16 @@ class IsaGen:
         if self.cascade:
             self.add_cascades()
         self.dedupe()
-        return {"rules": self.rules, "subs": self.subs, "comma_space": self.comma_space}
+        return {"rules": self.rules, "subs": self.subs, "comma_space": self.comma_space, "bool_flags": getattr(self, "bool_flags", [])}
 
     def add_cascades(self):
         """Families whose encoding size depends on the operand value."""
         rng = self.rng
         for f in range(rng.randint(1, 3)):
-            mnem = rng.choice(["jmp", "bra", "call", "ldi", "b"]) + rng.choice(["", "", "w", "q"])
-            style = rng.choice(["typed", "assert", "rel", "posfence"])
+            # suffixes never equal an operand token: `call q` would otherwise also match a glued rule `callq`
+            # (blanks inside a rule's literal run are skipped by the character-level matcher; C07's directed case)
+            mnem = rng.choice(["jmp", "bra", "call", "ldi", "b"]) + rng.choice(["", "", "_w", "_q"])
+            style = rng.choice(["typed", "assert", "rel", "posfence", "boolconst"])
             base = len(self.rules)
             op = rng.getrandbits(8)
             if style == "typed":
@@ -225,6 +227,13 @@ class IsaGen:
                     self.rules.append({"pat": [("lit", mnem), ("param", "a", (kind, w))],
                                        "prod": concat([lit_sized(rng, 8, (op + w) & 0xff), ("var", 0, ["a"])]),
                                        "size": 8 + w, "name": "c%d" % len(self.rules)})
+            elif style == "boolconst":
+                # the encoding (and its size) is selected by a boolean constant that the program defines from a label
+                flag = "bflag%d" % f
+                self.bool_flags = getattr(self, "bool_flags", []) + [flag]
+                self.rules.append({"pat": [("lit", mnem)],
+                                   "prod": ("tern", ("var", 0, [flag]), lit_sized(rng, 24), lit_sized(rng, 8)),
+                                   "size": 24, "name": "c%d" % len(self.rules)})
             elif style == "posfence":
                 # encodings selected by the *position* alone: blocks whose last expression is a constant but whose
                 # assertion depends on $ ({ assert($ < K), 0xaa } / { assert($ >= K), 0xbbbb })
@@ -600,6 +609,14 @@ class ProgGen:
         if tail:
             # at the end, constants would re-parent nothing that follows
             items.extend(tail)
+        for flag in self.isa.get("bool_flags", []):
+            lab = rng.choice(planned)
+            cond = ("bin", rng.choice([">", "<", ">="]), ("var", 0, [lab]), num(rng.choice([0, 1, 2, 4, 8, 16, 32])))
+            node = ("const", flag, 0, cond)
+            if rng.random() < 0.6:
+                items.append(node)
+            else:
+                items.insert(0, node)
         prog = {"isa": self.isa, "banks": self.banks, "items": items}
         if self.faults and rng.random() < 0.22:
             self.inject_fault(prog)
